@@ -177,8 +177,13 @@ def r4_shared(ctx):
     repo = ctx.repo
     pl = repo.func(WU, 'planning')
     g = CFG(pl.node)
+    # the shared spectrum state: the local(s) holding the result of build_oms_list
+    shared = {stmt_of(pl, c).targets[0].id for c in calls_to(pl, {'build_oms_list'})
+              if isinstance(stmt_of(pl, c), ast.Assign) and isinstance(stmt_of(pl, c).targets[0], ast.Name)}
+    if not shared:
+        raise CannotAnalyse('planning: the OMS list built by build_oms_list is not held in a local')
     uses = [n for n in walk_no_nested(pl.node) if isinstance(n, ast.Call) and
-            any(isinstance(a, ast.Name) and a.id == 'oms_list' for a in list(n.args) + [k.value for k in n.keywords])]
+            any(isinstance(a, ast.Name) and a.id in shared for a in list(n.args) + [k.value for k in n.keywords])]
     names = sorted({(c.func.id if isinstance(c.func, ast.Name) else getattr(c.func, 'attr', '?')) for c in uses})
     ctx.check('R4.shared-state', f'{site(pl)} who gets oms_list', names == ['pth_assign_spectrum'], key(pl, 'oms-users'),
               f'the shared spectrum state is handed to {names}; only spectrum assignment may see it')
